@@ -404,6 +404,14 @@ func runCase(c Case) (res simResult) {
 				return fail("C17/gauges", "%s gauge is %v after stop", k, m[k])
 			}
 		}
+		// every seed the reactor was told is finished counts as a finished seed, stop or no stop
+		insMu <- struct{}{}
+		nIns := len(inserted)
+		<-insMu
+		if v, _ := m["Finished seeds"].(uint64); int(v-base) != nIns-len(p.TrackedAtStop) {
+			return fail("C17/gauges", "after the stop: %d seeds were accepted, the reactor still tracked %d when the stages had stopped (%d were marked finished), but the finished-seeds total grew by %d",
+				nIns, len(p.TrackedAtStop), nIns-len(p.TrackedAtStop), v-base)
+		}
 		res.Fetches = p.Net.Log()
 		res.Elapsed = time.Since(t0).String()
 		res.Classes = []string{"ctl:stop"}
